@@ -137,6 +137,7 @@ def run_case(case, tier):
             vals, _, gv = sym_values(ctx, pipe, deep=(kind == 'sym-deep'))
             refv = ref_values(ctx, pipe, vals, gv)
             cfg_vals = dict(vals)
+            dvals, dgv = describe(vals), describe(gv)     # (before the library instantiates objects in place)
             try:
                 ch = keylib.chain(keylib.config(fs, classes.values(), cfg_vals, namespace=ns, global_vars=gv))
             except AssertionError as e:
@@ -147,12 +148,13 @@ def run_case(case, tier):
                     return          # AutoParameterObject refuses reprs containing 'object at 0x': construction fails
                 raise
             ev = evaluator.evaluate(spec, refv, namespace=ns)
-            ctx.check_concrete(set(ch.tasks) == set(ev), 'tasks', {'pipe': pipe, 'ns': ns, 'got': sorted(ch.tasks)})
+            if not ctx.check_concrete(set(ch.tasks) == set(ev), 'tasks', {'pipe': pipe, 'ns': ns, 'got': sorted(ch.tasks),
+                                                                         'vals': dvals, 'gv': dgv}):
+                return
             for f, info in ev.items():
                 t = ch.tasks[f]
                 k = t.name_for_persistence
-                ctx.check(k == info['key'], 'key', {'pipe': pipe, 'ns': ns, 'task': f, 'vals': describe(vals),
-                                                    'gv': describe(gv)})
+                ctx.check(k == info['key'], 'key', {'pipe': pipe, 'ns': ns, 'task': f, 'vals': dvals, 'gv': dgv})
                 ctx.observe('key:' + f, k)
                 if info['data'] == 'mem':
                     continue
@@ -164,7 +166,7 @@ def run_case(case, tier):
                             to_bool_term(dwv.run_info_path.name == info['key'] + '.run_info.yaml'),
                             to_bool_term(dwv.log_path.name == info['key'] + '.log'),
                             z3.BoolVal(tuple(t.path.parts) == d))
-                ctx.check(ok, 'layout', {'pipe': pipe, 'ns': ns, 'task': f, 'vals': describe(vals), 'gv': describe(gv),
+                ctx.check(ok, 'layout', {'pipe': pipe, 'ns': ns, 'task': f, 'vals': dvals, 'gv': dgv,
                                          'dir': list(dp.parts[:-1])})
         ctx = explore.explore(harness, max_paths=3000, concolic=explore.concolic_rerun,
                               decide_timeout_ms=30000 if tier == 'quick' else 90000)
